@@ -367,6 +367,8 @@ DEPENDS = {
     "C01": ["SerialFrame."],
     "C02": ["SerialFrame.", "ParseRecv.recv_handle", "ParseRecv._recv_cb"],
     "C13": ["ThreadCommon."],
+    "C20": ["CommHandler._read_hdr", "CommHandler._read_frame", "ParseRecv.recv_handle", "Parser._frame_set",
+            "Parser.frame_", "ParseRecv.frame_"],
     "C18": ["SerialDevice.", "CommInterfaceCommon."],
     "C12": ["CommHandler._nxslib_channels", "CommHandler.ch_", "CommHandler._channels_init", "CommHandler.channels_",
             "CommHandler._get_ack", "NxscopeHandler._stream_thread", "NxscopeHandler.stream_sub", "NxscopeHandler.stream_unsub",
